@@ -14,7 +14,10 @@ RULE = ("generated applications (1-3 commands, sub-commands to depth 2; default 
         "at the widths needed_width + d, d in -2..12 (the guard of the width claim and the text widths 1..13 behind it), ANSI and "
         "plain; plus textwrap.wrap alone over adversarial ASCII texts x widths 1..40; 'help <path>' / '<path> --help' / '<path> -h' "
         "through DefaultApplicationConfig runs at COLUMNS 60 / 80 / 120, compared with each other and with the model's page of the "
-        "named command; non-trivial = a page with >= 1 argument or option and >= 1 wrapped paragraph / a text that wraps; "
+        "named command - the path given by names, by aliases (every command on the path that has an alias no sibling shares), and the "
+        "EMPTY path ('help' / '--help' / '-h': the application's page, compared with the model's application page of the live default "
+        "configuration); the USAGE block of a command page must not start an entry with the names of a disabled or a hidden "
+        "non-default sub-command; non-trivial = a page with >= 1 argument or option and >= 1 wrapped paragraph / a text that wraps; "
         "distinct by request")
 TRUSTED = ["textwrap.wrap (CPython) is modelled by hand in Model/Wrap.v for texts without tabs whose word characters are ASCII; the "
            "model is compared with textwrap.wrap itself on every run", "the layout elements are read from BlockLayout._elements / "
@@ -23,7 +26,11 @@ TRUSTED = ["textwrap.wrap (CPython) is modelled by hand in Model/Wrap.v for text
            "str.format, the text as it is when it is no valid template) and hands the model the result",
            "whether wrapping cut a text inside its markup (the narrow class of the recorded finding) is decided by the harness with "
            "CPython's textwrap and a copy of pastel's tag pattern, on the element texts and widths of the implementation"]
-ASSUMPTIONS = ["help texts and descriptions contain no tab and no non-ASCII word character; sibling commands have distinct names"]
+ASSUMPTIONS = ["help texts and descriptions contain no tab and no non-ASCII word character; sibling commands have distinct names",
+               "defaults are of the types json.dumps knows (str, int, float, bool, None, lists): a default of another type (a path, a "
+               "decimal, a date - the configuration accepts any object) makes _format_value raise TypeError on the unchanged tree, "
+               "genuinely (proposed-fixes/help-default-not-json); the input class is behind the switch FOREIGN_DEFAULTS until the "
+               "repair is in /repo"]
 
 SGR = re.compile("\x1b\\[[0-9;]*m")
 WIDTHS = [40, 47, 60, 80, 120, 200]
@@ -45,6 +52,34 @@ OPT_FLAGS = [G.NO_VALUE, G.REQ_V, G.OPT_V, G.MULTI_V, G.REQ_V | G.O_INT, G.NO_VA
              G.NO_VALUE | P_SHORT, G.REQ_V | P_LONG, G.OPT_V | P_SHORT, G.MULTI_V | P_LONG, G.REQ_V | G.O_FLOAT, G.REQ_V | G.O_BOOL, G.REQ_V | G.MULTI_V]
 DEFAULTS = {"str": ["dv", "a \"quoted\" one", "é", "<b>", ""], "int": [0, 42, -7], "bool": [True, False], "list": [["x", "y"], [1, 2], []],
             "float": [1.5, float("nan"), float("inf"), -2.0]}
+# defaults of a type json.dumps does not know (the configuration accepts any object as a default): written in a case as
+# {"py": type, "v": text}.  AbstractHelp._format_value raised TypeError on them (proposed-fixes/help-default-not-json); with the
+# repair the page shows str(value) as a JSON string, which is what the model prints for the default str(value).
+# FOREIGN_DEFAULTS: generate them.  Off until that repair is in /repo (until then every such page raises, genuinely, and the check
+# must stay silent on the unchanged tree): make "1" the default below then.  VERIF_C13_FOREIGN_DEFAULTS=1 bin/check C13 quick tries it.
+FOREIGN_DEFAULTS = os.environ.get("VERIF_C13_FOREIGN_DEFAULTS", "0") == "1"
+FOREIGN = [{"py": "path", "v": "/tmp/some dir/x"}, {"py": "decimal", "v": "1.50"}, {"py": "date", "v": "2020-01-02"}]
+
+
+def real_default(d):
+    """the default the configuration is given"""
+    if isinstance(d, dict):
+        if d["py"] == "path":
+            import pathlib
+            return pathlib.PurePosixPath(d["v"])
+        if d["py"] == "decimal":
+            import decimal
+            return decimal.Decimal(d["v"])
+        import datetime
+        return datetime.date(*[int(x) for x in d["v"].split("-")])
+    return list(d) if isinstance(d, list) else d
+
+
+def model_default(d):
+    """... and the one the model is given: str(value) for a value of a type json does not know"""
+    return str(real_default(d)) if isinstance(d, dict) else d
+
+
 CMD_NAMES = ["server", "add", "list", "run", "b", "info"]
 LONG_CMD_NAMES = ["synchronize-repositories", "regenerate-configuration"]
 VNAMES = ["...", "value", "b", "path", "value-name-here"]
@@ -71,6 +106,8 @@ def rand_opt(rng, used):
                 d = rng.choice(DEFAULTS["list"])
             else:
                 d = rng.choice(DEFAULTS[rng.choice(["str", "int", "bool", "float"])])
+                if FOREIGN_DEFAULTS and rng.random() < 0.15:
+                    d = rng.choice(FOREIGN)
         return {"long": long, "short": short, "flags": fl, "desc": rng.choice(EDESCS), "default": d, "vname": rng.choice(VNAMES)}
     return None
 
@@ -89,6 +126,8 @@ def rand_args(rng, st, used):
         d = None
         if not kind & G.A_REQ and rng.random() < 0.5:
             d = rng.choice(DEFAULTS["list"]) if kind & G.A_MULTI else rng.choice(DEFAULTS["str"] + DEFAULTS["int"] + DEFAULTS["float"])
+            if FOREIGN_DEFAULTS and not kind & G.A_MULTI and rng.random() < 0.15:
+                d = rng.choice(FOREIGN)
         if kind & G.A_MULTI:
             st["multi"] = True
         if not kind & G.A_REQ:
@@ -157,6 +196,25 @@ def named_paths(t):
     return out
 
 
+def alias_names(t, idx):
+    """the names of the path idx with every command that has an alias no sibling shares named by its first such alias; None
+    when a command on the path is anonymous"""
+    out, cur = [], {"subs": t["cmds"]}
+    for i in idx:
+        sibs = cur["subs"]
+        cur = sibs[i]
+        if cur["anonymous"]:
+            return None
+        taken = set()
+        for j, x in enumerate(sibs):
+            if j != i:
+                taken.update([x["name"]] + x["aliases"])
+        taken.update(["help"])
+        free = [a for a in cur["aliases"] if a not in taken]
+        out.append(free[0] if free else cur["name"])
+    return out
+
+
 WRAP_ALPHA = ["a", "bc", "word", "x", " ", "  ", "-", "--", "---", "a-b", "well-known", "e-mail-address", "\n", "1", "42", "3-4", "\"q\"", "'s", ".", ",", "!",
               "?", "&", "_", "(", ")", "[--opt]", "<b>", "</b>", "longwordlongwordlongword", "x-", "-y", "a--b", "ab--", "é", "\xa0", "[-v\xa0<...>]", ";", "%",
               "\\", "\\<u>", "{", "}"]
@@ -195,12 +253,21 @@ def gen(rng, tier, info):
                         cases.append({"k": 0, "tree": t, "path": p, "d": d, "ansi": ansi})
                         n_sweep += 1
     # 'help <path>' prints the same page as '<path> --help' (and -h), on the default application configuration
-    n_h = 0
+    n_h = n_al = 0
     for i in range({"quick": 40, "thorough": 300, "search": 10}[tier]):
         t = rand_app(rng)
         for names, idx in named_paths(t):
             cases.append({"k": 3, "tree": t, "names": names, "path": idx, "cols": [80, 80, 60, 120][(i + n_h) % 4]})
             n_h += 1
+            # the same command named through an alias (of any command on the path): 'help sx' against 'sx --help'
+            al = alias_names(t, idx)
+            if al is not None and al != names:
+                cases.append({"k": 3, "tree": t, "names": al, "canon": names, "path": idx, "cols": [80, 60, 120, 80][(i + n_h) % 4]})
+                n_h += 1
+                n_al += 1
+        # the empty path: 'help' against '--help' and '-h' - the application's own page
+        cases.append({"k": 3, "tree": t, "names": [], "path": [], "cols": [80, 120, 60][i % 3]})
+        n_h += 1
     # narrow terminals: far outside the guard
     t = rand_app(rng)
     for w in (5, 12, 20, 30):
@@ -209,7 +276,7 @@ def gen(rng, tier, info):
             cases.append({"k": 0, "tree": t, "path": p, "W": w, "ansi": 0, "narrow": True})
     info["exhaustive"] = False
     info["distribution"] = {"wrap_only": n_w, "applications": n_apps, "pages": len(cases) - n_w - n_h, "pages_at_needed_width_plus_d": n_sweep,
-                            "help_command_runs": n_h}
+                            "help_command_runs": n_h, "help_runs_through_an_alias": n_al}
     return cases
 
 
@@ -236,12 +303,12 @@ def ref_format(help, **names):
 
 
 def w_opt(o):
-    return [[S(o["long"]), [] if o["short"] is None else [S(o["short"])], o["flags"], enc_val(o["default"])],
+    return [[S(o["long"]), [] if o["short"] is None else [S(o["short"])], o["flags"], enc_val(model_default(o["default"]))],
             [] if o["desc"] is None else [S(o["desc"])], S(o["vname"])]
 
 
 def w_arg(a):
-    return [[S(a["name"]), a["flags"], enc_val(a["default"])], [] if a["desc"] is None else [S(a["desc"])]]
+    return [[S(a["name"]), a["flags"], enc_val(model_default(a["default"]))], [] if a["desc"] is None else [S(a["desc"])]]
 
 
 def o_(v):
@@ -276,6 +343,11 @@ def wire_from(c, o):
     default configuration are read from the live object"""
     if c["k"] == 2:
         return [2, S(c["text"]), c["width"]]
+    if c["k"] == 3 and not c["path"]:
+        # 'help' alone: the application page of the default configuration (its name, version, commands - the built-in help
+        # command among them - are read from the live configuration)
+        display, version, help, cmds = o[7]
+        return [1, o[3], 0, STYLE_SET, o_(c["tree"]["name"] or "app"), display, version, o[4], cmds, help]
     if c["k"] == 3:
         return wire_page(dict(c, k=0, path=help_target_path(c["tree"], c["path"])), o[3], gopts=o[4], app_name=c["tree"]["name"] or "app",
                          with_texts=False)
@@ -305,8 +377,9 @@ def help_target_path(t, idx):
 
 def describe(c):
     if c["k"] == 3:
-        return "DefaultApplicationConfig application %r at COLUMNS=%d: 'help %s' against '%s --help' and '-h'" % (
-            c["tree"], c.get("cols", 80), " ".join(c["names"]), " ".join(c["names"]))
+        return "DefaultApplicationConfig application %r at COLUMNS=%d: 'help %s' against '%s --help' and '-h'%s" % (
+            c["tree"], c.get("cols", 80), " ".join(c["names"]), " ".join(c["names"]),
+            " (the command %r named through aliases)" % " ".join(c["canon"]) if c.get("canon") else "")
     if c["k"] == 2:
         return "textwrap.wrap(%r, %d)" % (c["text"], c["width"])
     return "%s at width %s, %s, application %r" % ("application help" if c["k"] == 1 else "help of command path %r" % c["path"],
@@ -334,7 +407,7 @@ def build(t):
     def add_opts(cfg, opts):
         for o in opts:
             d = o["default"]
-            cfg.add_option(o["long"], o["short"], o["flags"], o["desc"], list(d) if isinstance(d, list) else d, o["vname"])
+            cfg.add_option(o["long"], o["short"], o["flags"], o["desc"], real_default(d), o["vname"])
 
     def fill(cc, c):
         for a in c["aliases"]:
@@ -354,7 +427,7 @@ def build(t):
         add_opts(cc, c["opts"])
         for a in c["args"]:
             d = a["default"]
-            cc.add_argument(a["name"], a["flags"], a["desc"], list(d) if isinstance(d, list) else d)
+            cc.add_argument(a["name"], a["flags"], a["desc"], real_default(d))
         for s in c["subs"]:
             fill(cc.create_sub_command(s["name"]), s)
     add_opts(config, t["gopts"])
@@ -387,10 +460,10 @@ def default_app(t):
             cc.anonymous()
         for o in c["opts"]:
             d = o["default"]
-            cc.add_option(o["long"], o["short"], o["flags"], o["desc"], list(d) if isinstance(d, list) else d, o["vname"])
+            cc.add_option(o["long"], o["short"], o["flags"], o["desc"], real_default(d), o["vname"])
         for a in c["args"]:
             d = a["default"]
-            cc.add_argument(a["name"], a["flags"], a["desc"], list(d) if isinstance(d, list) else d)
+            cc.add_argument(a["name"], a["flags"], a["desc"], real_default(d))
         for s in c["subs"]:
             fill(cc.create_sub_command(s["name"]), s)
     for c in t["cmds"]:
@@ -445,13 +518,26 @@ def layout_elems(layout):
     return elems
 
 
+def live_application(t):
+    """display name, version, help text and the commands of the default configuration, in the model's wire form"""
+    cfg = default_app(t).config
+    cmds = [[S(cc.name), int(bool(cc.is_anonymous())), int(bool(cc.is_enabled())), int(bool(cc.is_hidden())), S(cc.description or "")] for cc in cfg.command_configs]
+    return [o_(cfg.display_name), o_(cfg.version), o_(ref_format(cfg.help, script_name=cfg.name or "console")), cmds]
+
+
 def target_elems(t, idx):
     """the layout elements of the page of the help target (to know how wide a terminal that page needs)"""
     from clikit.io import BufferedIO
     from clikit.formatter import PlainFormatter
-    from clikit.ui.help import CommandHelp
+    from clikit.ui.help import CommandHelp, ApplicationHelp
     from clikit.ui.layout import BlockLayout
     app = default_app(t)
+    if not idx:
+        helper = ApplicationHelp(app)
+        helper._formatter = BufferedIO(formatter=PlainFormatter())
+        layout = BlockLayout()
+        helper._render_help(layout)
+        return layout_elems(layout)
     cur = t["cmds"][idx[0]]
     cmd = app.get_command(cur["name"])
     for i in idx[1:]:
@@ -470,8 +556,10 @@ def run_impl(c):
         old = os.environ.get("COLUMNS")
         os.environ["COLUMNS"] = str(c.get("cols", 80))
         try:
-            a, b, d = run_default(c["tree"], "help " + path), run_default(c["tree"], path + " --help"), run_default(c["tree"], path + " -h")
+            a, b, d = run_default(c["tree"], ("help " + path).strip()), run_default(c["tree"], (path + " --help").strip()), \
+                run_default(c["tree"], (path + " -h").strip())
             gopts = live_global_options(c["tree"])
+            appinfo = live_application(c["tree"]) if not c["path"] else []
         finally:
             if old is None:
                 del os.environ["COLUMNS"]
@@ -485,7 +573,7 @@ def run_impl(c):
             elems = target_elems(c["tree"], help_target_path(c["tree"], c["path"]))
         except Exception:  # noqa
             elems = []
-        return [int(a == b == d), 1 if a[0] == 0 else 0, [S(repr(x)[:3000]) for x in (a, b, d)], c.get("cols", 80), gopts, page, elems]
+        return [int(a == b == d), 1 if a[0] == 0 else 0, [S(repr(x)[:3000]) for x in (a, b, d)], c.get("cols", 80), gopts, page, elems, appinfo]
     if c["k"] == 2:
         try:
             return [0, [S(l) for l in textwrap.wrap(c["text"], c["width"])]]
@@ -632,9 +720,23 @@ def oracle(c, o):
         # which page: the USAGE block starts with the synopsis of the named command ('app server add ...'; a page of another
         # command starts with other names, a command's own name is in brackets only on the page of its parent)
         lines = visible_lines(unS(o[5][1]))
-        want = " ".join([c["tree"]["name"] or "app"] + c["names"])
-        first = lines[1].strip() if len(lines) > 1 and lines[0] == "USAGE" else ""
-        if not (first == want or first.startswith(want + " ")):
+        if not c["path"]:
+            # 'help' alone: the application's page (it does not start with a USAGE block; its synopsis names no command)
+            # (the global options stand between the name and the arguments)
+            k0 = lines.index("USAGE") if "USAGE" in lines else -1
+            first = lines[k0 + 1].strip() if 0 < k0 < len(lines) - 1 else ""
+            k1 = lines.index("", k0 + 1) if k0 >= 0 and "" in lines[k0 + 1:] else len(lines)
+            # (a page without that heading: not decided here - the three requests agree, the bytes are compared with the model)
+            if k0 >= 0 and (not first.startswith((c["tree"]["name"] or "app") + " ") or "<command>" not in "".join(lines[k0 + 1:k1])):
+                return "help-shows-the-page-of-another-command"
+            return None
+        want = " ".join([c["tree"]["name"] or "app"] + c.get("canon", c["names"]))
+        if len(lines) > 1 and lines[0] == "USAGE":
+            cand = [lines[1].strip()]
+        else:
+            cand = [l.strip() for l in lines]          # (a page that does not begin with that heading: any line may be the synopsis)
+        cand = [x[4:] if x.startswith("or: ") else x for x in cand]
+        if not any(x == want or x.startswith(want + " ") for x in cand):
             return "help-shows-the-page-of-another-command"
         return None
     if c["k"] == 2:
@@ -656,6 +758,28 @@ def oracle(c, o):
     if elems and cut_in_markup(elems, W):
         return "harness-inconsistent:words-fit-but-markup-cut" if words_fit_page(elems, W) else KNOWN + r
     return r
+
+
+def block_of(lines, heading):
+    """the lines of the block under a heading of the page (up to the next line that starts in column 0); all lines when the page
+    has no such heading line (none to show, or a page so narrow that the heading itself is wrapped)"""
+    if heading not in lines:
+        return lines
+    k = lines.index(heading)
+    end = min([i for i in range(k + 1, len(lines)) if lines[i] and not lines[i].startswith(" ")] or [len(lines)])
+    return lines[k + 1:end]
+
+
+def entries_of(lines, heading, fallback):
+    """the names a listing block shows: the first word of its least indented lines (whatever that indentation is); without
+    such a heading on the page (renamed, or cut on a very narrow page) the lines that match the fallback pattern"""
+    if heading not in lines:
+        return None
+    blk = [l for l in block_of(lines, heading) if l.strip()]
+    if not blk:
+        return []
+    ind = min(len(l) - len(l.lstrip(" ")) for l in blk)
+    return [l.strip(" ").split(" ")[0] for l in blk if len(l) - len(l.lstrip(" ")) == ind]
 
 
 def oracle0(c, o):
@@ -697,21 +821,23 @@ def oracle0(c, o):
         return True
     def listed_under_own_names(o_):
         # 'under its preferred and alternative name': some entry of an option list starts with this option's preferred name and,
-        # where it has a short name, shows the alternative in parentheses right behind it (labels are never wrapped)
+        # where it has a short name, names the alternative on the same line (labels are never wrapped) - in parentheses, behind
+        # a comma, ...: how the two are set apart is not the property's business
         if o_["short"]:
             # (an option with a short name prefers it unless PREFER_LONG_NAME is given: AbstractOption's default flags)
             a, b = ("--" + o_["long"], "-" + o_["short"]) if o_["flags"] & P_LONG else ("-" + o_["short"], "--" + o_["long"])
-            label = "%s (%s)" % (a, b)
         else:
-            label = "--" + o_["long"]
+            a, b = "--" + o_["long"], None
         for l in rest:
             x = l.strip(" ")
-            if x.startswith(label) and (len(x) == len(label) or x[len(label)] == " "):
-                return True
+            if x.startswith(a) and (len(x) == len(a) or x[len(a)] in " ,(|/=["):
+                if b is None or re.search(r"(^|[ (\[,|/])%s($|[ )\],|/=\xa0])" % re.escape(b), x[len(a):]):
+                    return True
         return False
     if c["k"] == 1:
+        names = entries_of(lines, "AVAILABLE COMMANDS", None)
         for x in t["cmds"]:
-            shown = any(re.match(r"^  %s( |$)" % re.escape(x["name"]), l) for l in lines)
+            shown = (x["name"] in names) if names is not None else any(re.match(r"^  %s( |$)" % re.escape(x["name"]), l) for l in lines)
             want = x["enabled"] and not x["hidden"] and not x["anonymous"]
             if shown != want:
                 return "command-listing-wrong:%s" % ("missing" if want else "hidden-or-disabled-shown")
@@ -723,9 +849,8 @@ def oracle0(c, o):
             if not narrow and not listed_under_own_names(o_):
                 return "option-not-listed-under-its-own-names"
         if not narrow:
-            for ph in ("<command>", "<arg1>", "<argN>"):
-                if ph not in usage:
-                    return "argument-missing-in-synopsis"
+            # (which arguments the synopsis line spells out is not asked: the page LISTS them under ARGUMENTS; an option the
+            # synopsis names with a value must show that value's placeholder)
             if not value_names_shown(t["gopts"]):
                 return "value-name-missing-in-synopsis"
         return None
@@ -743,24 +868,32 @@ def oracle0(c, o):
             if not narrow and not listed_under_own_names(o_):
                 return "option-not-listed-under-its-own-names"
         for a in lvl["args"]:
-            if not any(re.match(r"^ +<%s>( |$)" % re.escape(a["name"]), l) for l in lines):
+            if not any(re.match(r"^ +<?%s>?( |$)" % re.escape(a["name"]), l) for l in lines):
                 return "argument-missing"
-            if narrow:
-                continue
-            if ("<%s%s>" % (a["name"], "1" if a["flags"] & G.A_MULTI else "")) not in usage:
-                return "argument-missing-in-synopsis"
-            if a["flags"] & G.A_MULTI and ("<%sN>" % a["name"]) not in usage:
-                return "argument-missing-in-synopsis"
     if not narrow and not value_names_shown([o_ for lvl in chain + [s for s in cur["subs"] if s["enabled"]] for o_ in lvl["opts"]]):
         return "value-name-missing-in-synopsis"
+    if not narrow:
+        # 'never a hidden or disabled command': not in the USAGE block either.  (A hidden DEFAULT sub-command has its synopsis
+        # there - it is how the command itself is used; recorded reading, Props/C13.v usage_entries_origin.)  An entry of the
+        # block starts at a line whose text - behind the 'or: ' of all entries but the first - begins with the names
+        base = " ".join([t["name"] or "console"] + [x["name"] for x in chain[1:] if not x["anonymous"]])
+        entries = [l.strip(" ") for l in (lines[k0 + 1:k1] if k0 >= 0 else lines)]      # (no USAGE heading: every line of the page)
+        entries = [e[4:] if e.startswith("or: ") else e for e in entries]
+        for s in cur["subs"]:
+            if (not s["enabled"]) or (s["hidden"] and not (s["default"] or s["anonymous"])):
+                w_ = base + " " + s["name"]
+                if any(e == w_ or e.startswith(w_ + " ") for e in entries):
+                    return "hidden-or-disabled-command-in-usage"
+    # (inside the COMMANDS block: a wrapped line of the DESCRIPTION may consist of a command's name)
+    names = entries_of(lines, "COMMANDS", None)
     for s in cur["subs"]:
-        shown = any(re.match(r"^  %s$" % re.escape(s["name"]), l) for l in lines)
+        shown = (s["name"] in names) if names is not None else any(re.match(r"^  %s$" % re.escape(s["name"]), l) for l in lines)
         want = s["enabled"] and not s["hidden"] and not s["anonymous"]
         if shown != want:
             return "sub-command-listing-wrong:%s" % ("missing" if want else "hidden-or-disabled-shown")
         if want:
             for a in s["args"]:
-                if not any(re.match(r"^ +<%s>( |$)" % re.escape(a["name"]), l) for l in lines):
+                if not any(re.match(r"^ +<?%s>?( |$)" % re.escape(a["name"]), l) for l in lines):
                     return "sub-command-argument-missing"
             for o_ in s["opts"]:
                 if not any(("--" + o_["long"]) in l for l in rest):
@@ -773,7 +906,7 @@ def oracle0(c, o):
 def nontrivial_key(c, o):
     import json
     if c["k"] == 3:
-        return ("h", json.dumps(c["tree"], sort_keys=True), tuple(c["names"]), c.get("cols", 80))
+        return ("h", json.dumps(c["tree"], sort_keys=True), tuple(c["names"]), c.get("cols", 80)) if c["names"] else None
     if c["k"] == 2:
         return ("w", c["text"], c["width"]) if o[0] == 0 and len(o[1]) > 1 else None
     if o[0] == -1:
